@@ -145,3 +145,9 @@ package markdown
 
 //@ global propWidth immutable -- private property key, only compared
 //@ global ErrNotCellProperties immutable -- an errors.New value, only returned
+
+//@ func (*propertyKey).String
+//@   tags C09
+//@   requires p != nil
+//@   assigns nothing
+//@   ensures true
